@@ -365,6 +365,50 @@ func main() {
 		o.Set("vlog.gcRefusesActive", "vlog_gc.go:rewrite", "ge", ag, "ge")
 	}
 	{
+		// mid-scan flush of the write-back set: `int64(len(wb)+1) >= MaxBatchCount || size+es >= MaxBatchSize`
+		// (count AND bytes bound; a request with >= MaxBatchCount entries is refused by sendToWriteCh)
+		conds := gf.IfWithBodyContaining(rwb, "vlog.db.batchSet(wb)")
+		val, ok := "", false
+		for _, c := range conds {
+			n := strings.ReplaceAll(c, " ", "")
+			hasCount := strings.Contains(n, "int64(len(wb)+1)>=vlog.opt.MaxBatchCount")
+			hasBytes := strings.Contains(n, "size+es>=vlog.opt.MaxBatchSize")
+			switch {
+			case hasCount && hasBytes && strings.Contains(n, "||"):
+				val, ok = "count|bytes", true
+			case hasBytes && !hasCount:
+				val, ok = "bytes", true
+			case hasCount && !hasBytes:
+				val, ok = "count", true
+			}
+		}
+		o.Set("vlog.gcFlushCond", "vlog_gc.go:rewrite.process", val, ok, "count|bytes")
+		// final re-insert loop: `for i := 0; i < len(wb); {` without a post statement; on ErrTxnTooBig the
+		// batch is halved and the SAME chunk retried (`continue` before `i += batchSize`)
+		loop := ""
+		if rw != nil {
+			ast.Inspect(rwb, func(x ast.Node) bool {
+				fs, ok := x.(*ast.ForStmt)
+				if !ok || fs.Cond == nil || gf.Src(fs.Cond) != "i < len(wb)" {
+					return true
+				}
+				hasInc := gf.HasStmt(fs.Body, "i += batchSize")
+				hasCont := strings.Contains(gf.Src(fs.Body), "continue")
+				halves := gf.HasStmt(fs.Body, "batchSize = batchSize / 2") || gf.HasStmt(fs.Body, "batchSize /= 2")
+				switch {
+				case fs.Post == nil && hasInc && hasCont && halves:
+					loop = "retry"
+				case fs.Post != nil && hasCont:
+					loop = "skips" // `continue` runs the post statement: the refused chunk is never re-sent
+				case fs.Post != nil:
+					loop = "post-no-retry"
+				}
+				return true
+			})
+		}
+		o.Set("vlog.gcRetryLoop", "vlog_gc.go:rewrite", loop, loop != "", "retry")
+	}
+	{
 		// doRunGC: the discard-ratio guard returns ErrNoRewrite before rewrite is reached
 		fd := gf.Func("valueLog.doRunGC")
 		guard := false
